@@ -244,3 +244,24 @@ def apply(trees, maps):
     for mod, mapping in maps.items():
         if mapping and mod in trees:
             _Rename(mapping).visit(trees[mod])
+
+
+def unchanged_defs(trees, path=SPEC):
+    """names of the functions / methods whose definition is, identifier for identifier, the reviewed one"""
+    if not os.path.exists(path):
+        return set()
+    spec = json.load(open(path))
+    old = {}
+    for m, k, h, ids, defs in spec['units']:
+        if k in ('func', 'method') and ids:
+            old.setdefault((m, ids[0]), []).append((h, ids))
+    out = set()
+    changed = set()
+    for m in trees:
+        for mm, k, h, ids, defs in units_of(trees[m], m):
+            if k in ('func', 'method') and ids:
+                if (h, ids) in [(a, b) for a, b in old.get((mm, ids[0]), [])]:
+                    out.add(ids[0])
+                else:
+                    changed.add(ids[0])
+    return out - changed
